@@ -114,7 +114,10 @@ def regen_consts():
 
 
 def coq_sources():
-    return sorted(f for f in os.listdir(COQ) if f.endswith(".v"))
+    """the development = the files listed in coq/_CoqProject (a .v file that is not listed is not built,
+    not imported and not part of any theorem's dependencies)"""
+    listed = [l.strip() for l in open(os.path.join(COQ, "_CoqProject")) if l.strip().endswith(".v")]
+    return sorted(f for f in listed if os.path.exists(os.path.join(COQ, f)) or f == "Consts.v")
 
 
 def scan_forbidden():
